@@ -95,6 +95,9 @@ def matches(w, s, dv, off, rtol=1e-12):
         w.base_offset == off or isclose(w.base_offset, off, 1e-15))
 
 
+_LAST_REREAD = [None]
+
+
 def in_sync(w):
     """expr, base_value and dimensions of w agree: re-read the unit from its own expression"""
     if w.base_offset:
@@ -102,6 +105,7 @@ def in_sync(w):
     st, v = safe(Unit, w.expr, registry=w.registry)
     if st == "exc":
         return "re-reading the expression %s raised %r" % (w.expr, v)
+    _LAST_REREAD[0] = v
     if not math.isfinite(v.base_value) or v.base_value == 0.0:
         return True         # a factor of the flattened expression leaves the float range
     if not (isclose(v.base_value, w.base_value, 1e-11) and dimvec(v.dimensions) == dimvec(w.dimensions)):
@@ -222,9 +226,18 @@ def check_result(kind, cls, ent_fn, desc):
     if not matches(e.u, e.s, e.dv, e.off):
         fail("C05[homomorphism:%s:%s]" % (kind, cls), "%s = %s, the operands' scales and dimensions give scale %r dims %s offset %r"
              % (desc, describe(e.u), float(e.s), [str(x) for x in e.dv], e.off), replay_val(e.src, e.s, e.off))
+    _LAST_REREAD[0] = None
     sy = in_sync(e.u)
     if sy is not True:
         fail("C05[sync:%s:%s]" % (kind, cls), "%s: %s" % (desc, sy), replay_val(e.src, e.s, e.off))
+    v = _LAST_REREAD[0]
+    if sy is True and v is not None and v.expr == e.u.expr and math.isfinite(v.base_value) and v.base_value:
+        # the same expression in the same registry, built two ways: equal and equal hashes
+        if not (v == e.u) or hash(v) != hash(e.u):
+            fail("C05[hash:same-expression]", "%s and the unit read from its expression %s: == %r, hashes %r / %r, base values %r / %r"
+                 % (desc, v.expr, v == e.u, hash(e.u), hash(v), e.u.base_value, v.base_value),
+                 replay_script(needs_reg(e) + "a = %s\nb = unyt.Unit(a.expr, registry=a.registry)\nprint(a == b, hash(a), hash(b), a.base_value, b.base_value)\n"
+                               "sys.exit(0 if (a == b and hash(a) == hash(b)) else 1)\n" % e.src))
     return e
 
 
